@@ -177,6 +177,44 @@ def run_case(case, ctx, mon):
     mon.check(np.array_equal(hll.registers, reg), "query-does-not-modify-registers", p=p)
 
 
+def thread_queries(ctx, mon):
+    """query() is a pure function of the registers also when several threads ask at once (different sketches and the same)."""
+    import threading
+
+    s = sk()
+    rng = ctx.rng("threads")
+    sketches, want = [], []
+    for p in (12, 14, 16, 10):
+        h = s.HyperLogLog(p, 3)
+        h.registers[:] = ideal_registers(rng, p, int((1 << p) * pick(rng, [0.5, 3.0, 6.0, 20.0])))
+        sketches.append(h)
+        want.append(float(h.query()))
+    case = {"threads": "concurrent-queries", "want": want}
+    mon.begin_case(case)
+    wrong = [0] * len(sketches)
+    errors = []
+    barrier = threading.Barrier(len(sketches) * 2)
+
+    def work(i):
+        barrier.wait()
+        try:
+            for _ in range(1500):
+                if float(sketches[i].query()) != want[i]:
+                    wrong[i] += 1
+        except Exception as exc:  # noqa: BLE001
+            errors.append(f"{type(exc).__name__}: {exc}")
+
+    ts = [threading.Thread(target=work, args=(i % len(sketches),)) for i in range(len(sketches) * 2)]
+    for t in ts:
+        t.start()
+    for t in ts:
+        t.join()
+    mon.check(sum(wrong) == 0 and not errors, "threads:concurrent-query()-answers==single-thread-answers", wrong_per_sketch=wrong, errors=errors[:2])
+    mon.count("thread_query_rounds")
+    mon.nontrivial(True)
+    mon.end_case()
+
+
 def table_sanity(ctx, mon):
     s = sk()
     mon.begin_case({"tables": "structure"})
@@ -196,11 +234,14 @@ def table_sanity(ctx, mon):
 
 def run(ctx, mon):
     table_sanity(ctx, mon)
+    thread_queries(ctx, mon)
     run_cases(ctx, mon, gen_cases(ctx), run_case)
 
 
 def replay(case, ctx, mon):
-    if "tables" in case:
+    if "threads" in case:
+        thread_queries(ctx, mon)
+    elif "tables" in case:
         table_sanity(ctx, mon)
     else:
         run_case(case, ctx, mon)
